@@ -446,6 +446,10 @@ func (gen *Generator) GenerateCond(args []Sexp) error {
 	// we generate the cond bottom up, so i counts down.
 	for i := len(args)/2 - 1; i >= 0; i-- {
 		subgen.Reset()
+		// not in tail position, but inside the same scopes and function:
+		// a break or continue in the predicate must pop those scopes too.
+		subgen.scopes = gen.scopes
+		subgen.funcname = gen.funcname
 		err := subgen.Generate(args[2*i])
 		if err != nil {
 			return err
@@ -518,6 +522,10 @@ func (gen *Generator) GenerateLet(name string, args []Sexp) error {
 	gen.AddInstruction(AddScopeInstr{Name: "runtime " + name})
 	gen.scopes++
 
+	// the values bound are not in tail position, only the last form
+	// of the body is (GenerateBegin sees to that).
+	oldtail := gen.Tail
+	gen.Tail = false
 	if name == "letseq" {
 		for i, rs := range rstatements {
 			err := gen.Generate(rs)
@@ -537,6 +545,7 @@ func (gen *Generator) GenerateLet(name string, args []Sexp) error {
 			gen.AddInstruction(PopStackPutEnvInstr{lstatements[i]})
 		}
 	}
+	gen.Tail = oldtail
 	err := gen.GenerateBegin(args[1:])
 	if err != nil {
 		return err
@@ -651,6 +660,17 @@ func (gen *Generator) GenerateInclude(args []Sexp) error {
 }
 
 func (gen *Generator) GenerateCallBySymbol(sym *SexpSymbol, args []Sexp, orig Sexp) error {
+	switch sym.name {
+	case "def", "mdef", "set", "assert", "return", "package", "for",
+		"syntaxQuote", "macexpand", "include", "quote", "fn", "defn", "defmac":
+		// none of the forms inside these is in tail position: more
+		// instructions of the special form itself follow them. (cond,
+		// begin, let, letseq, newScope, and, or pass the tail position
+		// on to their last form by themselves.)
+		oldtail := gen.Tail
+		gen.Tail = false
+		defer func() { gen.Tail = oldtail }()
+	}
 	switch sym.name {
 	case "and":
 		return gen.GenerateShortCircuit(false, args)
@@ -881,7 +901,11 @@ func (gen *Generator) GenerateArray(arr *SexpArray) error {
 	if gen.arrayDepth > maxArrayLiteralDepth {
 		return fmt.Errorf("array nested more than %d deep (does it contain itself?)", maxArrayLiteralDepth)
 	}
+	// the elements are arguments of the call to array below
+	oldtail := gen.Tail
+	gen.Tail = false
 	err := gen.GenerateAll(arr.Val)
+	gen.Tail = oldtail
 	if err != nil {
 		return err
 	}
@@ -1598,25 +1622,26 @@ func (gen *Generator) GeneratePackage(expressions []Sexp) error {
 	// to aim at when cleaning up.
 	symPkgName := gen.env.GenSymbol(pkgName)
 
+	// no form of the body is in tail position: the package is
+	// assembled from the scope after the last one has run.
 	oldtail := gen.Tail
 	gen.Tail = false
+	defer func() { gen.Tail = oldtail }()
 
 	gen.AddInstruction(AddScopeInstr{Name: pkgName})
+	// a break, continue or tail call that leaves the body
+	// must take the package scope with it.
+	gen.scopes++
+	defer func() { gen.scopes-- }()
 	gen.AddInstruction(PushStackmarkInstr{sym: symPkgName})
 
 	if size > 1 {
-		for _, expr := range expressions[1 : size-1] {
+		for _, expr := range expressions[1:size] {
 			err := gen.Generate(expr)
 			if err != nil {
 				return err
 			}
 		}
-	}
-
-	gen.Tail = oldtail
-	err := gen.Generate(expressions[size-1])
-	if err != nil {
-		return err
 	}
 	gen.AddInstruction(PopUntilStackmarkInstr{sym: symPkgName})
 	gen.AddInstruction(PopInstr(0)) // remove the stackmark itself now
